@@ -471,6 +471,13 @@ Definition build (r : res) : bres value :=
   | _ => BErr ECrash
   end.
 
+(* the same on the flattened top-level result (what the reference semantics produce) *)
+Definition build_flat (l : list tree) : bres value :=
+  match l with
+  | [NT _ (t :: _)] => match pnode t None with BOk (v, _) => BOk v | BErr e => BErr e end
+  | _ => BErr ECrash
+  end.
+
 End Build.
 
 (* get_location(obj) for an object value: ((line, col), nchar) *)
